@@ -183,6 +183,7 @@ def run(ctx):
                                   'other propagation types of the same setup: shape %s -> %s, diff %.3g' % (meth, variant, tuple(u.shape), tuple(after.shape),
                                                                                                       W.maxdiff(after.numpy(), u.numpy())), rec,
                                   {'api': 'torch', 'method': meth, 'what': 'zero_identity_after_other_steps', 'program': True})
+    W.argument_types(ctx, 'C02', methods=('as', 'tf', 'bl'))          # steps configured with tuples / NumPy scalars / 0-d tensors are the same steps
     # ---- kernel products through get_propagation_kernel
     import odak.learn.wave as LW
     for (n, m) in [(4, 5), (7, 7), (6, 3)]:
